@@ -23,4 +23,13 @@ def hook(put):
     m = X.one(r"#define\s+NNI_TIME_NEVER\s+\(\(nni_time\)\s*-\s*1\)", X.src("src/core/defs.h"), "NNI_TIME_NEVER")
     m = X.one(r"typedef\s+uint64_t\s+nni_time;", X.src("src/core/defs.h"), "nni_time is 64 bit")
     put("expireTimeNeverBits", 64, "core/defs.h nni_time = uint64_t, NNI_TIME_NEVER = (nni_time) -1")
+    # completion lists (Model/Completions.lean): add prepends through the reap node; run takes the link out of the node
+    # BEFORE it completes the aio
+    add = re.sub(r"\s+", " ", X.func_body(aio, "nni_aio_completions_add"))
+    X.one(r"aio->a_reap_node\.rn_next = \*clp; aio->a_result = result; aio->a_count = count; \*clp = aio;", add, "completions_add prepends through a_reap_node")
+    run = re.sub(r"\s+", " ", X.func_body(aio, "nni_aio_completions_run"))
+    X.one(r"nni_aio \*cl = \*clp; \*clp = NULL; while \(\(aio = cl\) != NULL\) \{ cl = \(void \*\) aio->a_reap_node\.rn_next; "
+          r"aio->a_reap_node\.rn_next = NULL; nni_aio_finish_sync\(aio, aio->a_result, aio->a_count\); \}", run,
+          "completions_run: link read and cleared before the callback")
+    put("completionsRunAnchored", True, "core/aio.c nni_aio_completions_add/_run match Model/Completions.lean")
     put("expireScanAnchored", True, "core/aio.c nni_aio_expire_loop: take rule, eq_next rule and sleep test match Model/ExpireQ.lean")
